@@ -54,15 +54,16 @@ def run(ctx):
                     "guarded by thresholds that keep it in 0..M-1 (linear forms over the positive constructor parameters)", min_sites=31)
     ctx.rule("S10", "selection-based routing and compositions: mux/demux arm i connects endpoint i under sel == i; Gate connects "
                     "only when enabled; SyncFIFO depth 0/1/>=2 arms; Pipeline chains consecutive modules; Buffer order sink, "
-                    "pipe_valid, pipe_ready, source; Cast maps all bits; BufferizeEndpoints directions", min_sites=20)
+                    "pipe_valid, pipe_ready, source; Cast maps all bits; BufferizeEndpoints directions", min_sites=25)
 
     # ---- S1 (shared with C04): a token presented at the source is handed over as presented
     from .c04 import S1_CLASSES
-    from ..rules_stream import s1_stability
+    from ..rules_stream import s1_stability, s1_held_comb
     for cls, alt, why in S1_CLASSES:
         fx = fx_of(ctx, STREAM, cls)
         n = s1_stability(ctx, "S1", fx, cls, alt=B.from_expr(alt) if alt else None, alt_reason=why)
         ctx.need(n > 0, f"S1: {cls} has no registered source field any more (instance table stale)")
+        s1_held_comb(ctx, "S1", fx, cls)
 
     # ---- S2
     for cls in S2_CLASSES:
@@ -364,6 +365,41 @@ def _s10(ctx):
     ok = len(ca) == 1 and "self.source.payload.flatten()" in ca[0].t and "self.sink.payload.flatten()" in ca[0].v and ca[0].v.startswith("Cat(")
     ctx.ob("S10", STREAM, "Cast", "all source payload bits <- all sink payload bits", ok, "" if ok else f"{[(a.t[:40], a.v[:40]) for a in ca]}")
     init = m.method("Cast", "__init__")
+    # field order: each side is reversed exactly when its own flag is set (reversing both is not reversing none: the fields of the
+    # two layouts have different widths, bits pair up from the other end).  Decided by interpreting __init__ (lxs/pyconst.py) on
+    # token lists for the four flag combinations and reading the operands of the final Cat(*to).eq(Cat(*from)).
+    from .. import pyconst
+    cats = [n for n in ast.walk(init) if isinstance(n, ast.Call) and isinstance(n.func, ast.Attribute) and n.func.attr == "eq" and
+            isinstance(n.func.value, ast.Call) and norm(n.func.value.func) == "Cat" and len(n.args) == 1 and isinstance(n.args[0], ast.Call) and
+            norm(n.args[0].func) == "Cat"]
+    ctx.ob("S10", STREAM, "Cast", "Cat(*to).eq(Cat(*from)):present", len(cats) == 1, f"{len(cats)} Cat-to-Cat assignments", init)
+    if len(cats) == 1:
+        base_f, base_t = ["f0", "f1", "f2"], ["t0", "t1", "t2", "t3"]
+        for rf in (False, True):
+            for rt in (False, True):
+                me = pyconst.NS(sink=pyconst.NS(payload=pyconst.NS(flatten=pyconst.Native(lambda: list(base_f)))),
+                                source=pyconst.NS(payload=pyconst.NS(flatten=pyconst.Native(lambda: list(base_t)))))
+                me.frozen = ("sink", "source")
+                it = pyconst.Interp({"self": me, "reverse_from": rf, "reverse_to": rt})
+                try:
+                    it.run(init.body)
+                except Exception as ex:
+                    ctx.need(False, f"Cast.__init__ cannot be interpreted: {ex}")
+
+                def operands(call):
+                    out = []
+                    for a in call.args:
+                        v = it.ev(a.value if isinstance(a, ast.Starred) else a)
+                        if v is pyconst.UNKNOWN:
+                            return None
+                        out += list(v) if isinstance(a, ast.Starred) else [v]
+                    return out
+                to, frm = operands(cats[0].func.value), operands(cats[0].args[0])
+                ok = to == (base_t[::-1] if rt else base_t) and frm == (base_f[::-1] if rf else base_f)
+                ctx.ob("S10", STREAM, "Cast", f"field order reverse_from={rf}, reverse_to={rt}", ok,
+                       "" if ok else f"with reverse_from={rf}, reverse_to={rt} the source fields are taken as {to} and the sink fields as {frm} "
+                                     f"(declared order {base_t} / {base_f}): a side is reversed without its flag or not reversed with it -- fields of "
+                                     f"different widths pair up from the wrong end", cats[0])
     def _side(e):
         import re as _re
         t = norm(e)
